@@ -174,6 +174,13 @@ pub struct FxSpec {
     pub cal: crate::fx::Calendar,
     pub format: crate::fx::JsonFormat,
     pub published_today: bool,
+    /// Some(date): every process starts from the same HAND-EDITED cache instead of sharing an
+    /// evolving one: the year file of that date ends there and the user has typed their own rate
+    /// for it (the tool's "no rate yet" message tells them to). Rows dated later make the run
+    /// download the year, so what the date gets depends on the order of look-ups - which must be
+    /// the file order, whatever the hash seed.
+    #[serde(default)]
+    pub hand_edited_cache_until: Option<String>,
 }
 
 pub fn d(y: i32, m: u8, day: u8) -> Date {
@@ -650,7 +657,17 @@ pub fn generate(seed: u64, k_seeds: usize) -> Sc {
             let y: i32 = s[..4].parse().unwrap_or(0);
             y >= cal.start_year && y < cal.start_year + 6
         });
-        Some(FxSpec { cal, format: crate::fx::gen_format(&mut r), published_today: r.chance(1, 2) })
+        // a third of these inputs: a hand-edited cache ending at one of the rate-less trade dates
+        let mut rateless: Vec<Date> = files
+            .iter()
+            .flat_map(|f| f.rows.iter())
+            .filter(|row| row[C_CUR] == "USD" && row[C_FX].is_empty())
+            .filter_map(|row| acb::util::date::parse_standard_date(&row[C_TRADE]).ok())
+            .collect();
+        rateless.sort();
+        rateless.dedup();
+        let hand = if rateless.len() >= 2 && r.chance(1, 3) { Some(rateless[r.below(rateless.len() as u64 - 1) as usize].to_string()) } else { None };
+        Some(FxSpec { cal, format: crate::fx::gen_format(&mut r), published_today: r.chance(1, 2), hand_edited_cache_until: hand })
     } else {
         None
     };
@@ -713,7 +730,21 @@ pub fn run_once_in(sc: &Sc, mode: Mode, hash_seed: u64, keep_cache: bool, boc: O
     // Input files live on the simulated disk, so the real File::open/read path runs.
     let names: Vec<String> = sc.files.iter().map(|f| format!("/simfs/in/{}", f.name)).collect();
     with_world(|w| {
-        let cache = if keep_cache { w.fs.disk.list_files(crate::fx::CACHE_DIR) } else { vec![] };
+        let mut cache = if keep_cache { w.fs.disk.list_files(crate::fx::CACHE_DIR) } else { vec![] };
+        if let (Some(fx), Some(data)) = (&sc.fx, &boc) {
+            if let Some(until) = &fx.hand_edited_cache_until {
+                // the same hand-edited year file before every process
+                let until = parse_date(until);
+                let mut text = String::new();
+                let mut day = d(until.year(), 1, 1);
+                while day <= until {
+                    let rate = if day == until { "1.23456".to_string() } else { data.expected_rate(day).map(|x| x.to_string()).unwrap_or_else(|| "0".to_string()) };
+                    text.push_str(&format!("{},{}\n", day, rate));
+                    day += Duration::days(1);
+                }
+                cache = vec![(format!("rates-{}.csv", until.year()), text.into_bytes())];
+            }
+        }
         w.fs.disk = crate::simfs::Disk::new();
         for (n, data) in cache {
             w.fs.disk.put_file(&format!("{}/{}", crate::fx::CACHE_DIR, n), &data);
@@ -1206,6 +1237,10 @@ impl Engine for C09 {
         let mut nontrivial = false;
         let mut perms: BTreeSet<String> = BTreeSet::new();
         let boc = sc.fx.as_ref().map(|f| std::sync::Arc::new(crate::fx::BocData::new(&f.cal, &f.format, &[])));
+        if sc.fx.as_ref().map(|f| f.hand_edited_cache_until.is_some()).unwrap_or(false) {
+            st.bump("probe.fx_every_process_starts_from_a_hand_edited_cache");
+            nontrivial = true;
+        }
         if sc.files.iter().any(|f| f.layout_seed != 0) {
             st.bump("probe.columns_permuted_and_header_names_respelled");
         }
@@ -1408,6 +1443,11 @@ impl Engine for C09 {
             }
         }
         if let Some(fx) = &sc.fx {
+            if fx.hand_edited_cache_until.is_some() {
+                let mut s = sc.clone();
+                s.fx.as_mut().unwrap().hand_edited_cache_until = None;
+                c.push(s);
+            }
             if !fx.cal.gaps.is_empty() || fx.cal.holidays.len() > 8 {
                 let mut s = sc.clone();
                 let f = s.fx.as_mut().unwrap();
@@ -1523,6 +1563,7 @@ impl Engine for C09 {
             "probe.e2e_real_process_output_equals_simulated_process_output",
             "probe.e2e_affiliate_spelled_differently_from_row_to_row",
             "probe.e2e_verbose_runs",
+            "probe.fx_every_process_starts_from_a_hand_edited_cache",
             "probe.fx_first_run_downloaded",
             "probe.fx_second_run_served_from_cache",
         ]
